@@ -160,9 +160,63 @@ def run(pid, tier, seed):
             chk.fail("any-only-for-empty", {"detail": "a list nested 20000 deep, none of them empty, was typed List[...List[Any]]: "
                                                       "Any %d levels down where no empty container was observed" % depth})
         chk.count("deep.typed")
+    concurrent_typing(chk, eng)
     rc = chk.finish(proof, search)
     eng.close()
     return rc
+
+
+def concurrent_typing(chk, eng):
+    """two threads traced at the same time type values that share a container: what one thread is in the middle of walking is, to
+    the other thread, an ordinary non-empty container - not `Any`.  The interleaving is forced: thread A is parked inside its
+    walk of the shared list (in typing's hashing of a class-object element, through a metaclass __hash__) while thread B types
+    the same list from start to end."""
+    import threading
+    inside, release = threading.Event(), threading.Event()
+
+    class ParkingMeta(type):
+        def __hash__(cls):
+            if threading.current_thread().name == "mtv-parked" and not inside.is_set():
+                inside.set()
+                release.wait(20)
+            return type.__hash__(cls)
+
+        def __eq__(cls, other):
+            return cls is other
+
+    class Marker(metaclass=ParkingMeta):
+        pass
+
+    for k in (0, 3):
+        inside.clear(); release.clear()
+        shared = [1, 2, Marker, 3]
+        outer_a, outer_b = {"cfg": shared, "n": 1}, (shared, "b")
+        want_a, want_b = eng.get_type(outer_a, k), eng.get_type(outer_b, k)      # sequentially
+        got = {}
+
+        def run_a():
+            try:
+                got["a"] = eng.get_type(outer_a, k)
+            except BaseException as e:
+                got["a"] = e
+            release.set()
+
+        def run_b():
+            inside.wait(20)
+            try:
+                got["b"] = eng.get_type(outer_b, k)
+            except BaseException as e:
+                got["b"] = e
+            release.set()
+        ta, tb = threading.Thread(target=run_a, name="mtv-parked"), threading.Thread(target=run_b, name="mtv-other")
+        ta.start(); tb.start(); ta.join(60); tb.join(60)
+        chk.evaluations += 1
+        for who, want in (("a", want_a), ("b", want_b)):
+            g = got.get(who)
+            if g is None or isinstance(g, BaseException) or g != want:
+                chk.fail("any-only-for-empty", {"k": k, "thread": who, "sequential": repr(want), "concurrent": repr(g),
+                                                "detail": "a container another thread was in the middle of typing was not typed as it is typed alone"})
+        chk.nontriv("concurrent|%d" % k)
 
 
 def replay(path, args):
